@@ -514,6 +514,10 @@ func checkFullRead(c *Ctx, rule string, pkgs ...string) {
 			}
 			name := core.FullName(f)
 			key := ordKey(counts, core.ShortPkg(fn)+"|"+core.FuncName(fn)+"|"+name)
+			if name == "io.ReadAtLeast" && len(call.Call.Args) == 3 && core.Path(call.Call.Args[2]) == "len("+core.Path(call.Call.Args[1])+")" {
+				R.OK(rule, key, P.InstrPos(call), "transport read through io.ReadAtLeast with min = len(buf) (all-or-error)")
+				return
+			}
 			if why, ok := allowed[name]; ok {
 				R.OK(rule, key, P.InstrPos(call), "transport read through "+name+" ("+why+")")
 			} else {
